@@ -165,8 +165,8 @@ HARNESS h_x86mem_vsiby_s8_g0_a0_x3() { mem_case<GP32, YMM, 8, 0, 0, 3, 12, 5>();
 HARNESS h_x86mem_vsibz_s0_g0_a0_x1() { mem_case<NONE, ZMM, 0, 0, 0, 1, 12, 5>(); }
 HARNESS h_x86mem_lab_s4_g0_a0_x0() { mem_case<LAB, NONE, 4, 0, 0, 0, 12, 5>(); }
 HARNESS h_x86mem_labi_s8_g0_a2_x3() { mem_case<LAB, GP64, 8, 0, 2, 3, 12, 5>(); }
-HARNESS h_x86mem_bi_s8_g5_a0_x3_wide() { mem_case<GP64, GP64, 8, 5, 0, 3, 31, 10>(); }
-HARNESS h_x86mem_abs_s4_g0_a1_x0_wide() { mem_case<NONE, NONE, 4, 0, 1, 0, 40, 13>(); }
+HARNESS h_x86mem_bi_s8_g5_a0_x3_wide() { mem_case<GP64, GP64, 8, 5, 0, 3, 24, 9>(); }
+HARNESS h_x86mem_abs_s4_g0_a1_x0_wide() { mem_case<NONE, NONE, 4, 0, 1, 0, 24, 9>(); }
 
 // a label operand: the text is the label's (here: the token of the id given)
 HARNESS h_x86op_label() {
